@@ -266,6 +266,8 @@ def units(tier):
           Unit('faults/e3-i1', lambda ctx: h_session(ctx, 3, 1), must_cover=('notified', 'local-event'), max_paths=300000, max_seconds=600, weight=80)]
     # `local-as auto`: the first message is read in CONNECT, before our OPEN goes out — a fault there is still answered
     us.append(Unit('faults/auto-as-e3-i0', lambda ctx: h_session(ctx, 3, 0, auto_as=True), must_cover=('notified', 'silent', 'fault-1', 'fault-2', 'fault-5'), max_paths=300000, max_seconds=600, weight=30))
+    # our own hold time 0 (no timers): the faults of the OPEN exchange are answered all the same (the acceptance test is on the RECEIVED hold time)
+    us.append(Unit('faults/e2-i0-h0', lambda ctx: h_session(ctx, 2, 0, hold=0), must_cover=('notified', 'fault-2'), max_paths=300000, max_seconds=600, weight=30))
     us.append(Unit('two-sessions/fault-in-the-second', h_sessions_in_a_row, weight=40, max_seconds=600,
                    must_cover=('notified', 'silent', 'graceful-restart-teardown', 'second-session-incoming')))
     us.append(Unit('wire/header-faults', h_wire_fault, must_cover=('wire-fault-1-1', 'wire-fault-1-2', 'wire-fault-1-3'), weight=20, max_seconds=600))
